@@ -45,12 +45,16 @@ def stub_set(name, config):
         if backend != "sse2":
             return []
         return [("core::arch::x86_64::_%s" % n, "crate::sse::%s" % n) for n in sse_stub_names()]
+    if name == "sse_hv":
+        if backend != "sse2":
+            return []
+        return [("core::arch::x86_64::_%s" % n, "crate::sse::%s" % {"mm_sqrt_ps": "hv_sqrt_ps"}.get(n, n)) for n in sse_stub_names()]
     if name == "sse_uf":
         if backend != "sse2":
             return []
         out = []
         for n in sse_stub_names():
-            r = {"mm_add_ps": "uf_add_ps", "mm_sub_ps": "uf_sub_ps", "mm_mul_ps": "uf_mul_ps", "mm_div_ps": "uf_div_ps"}.get(n, n)
+            r = {"mm_add_ps": "uf_add_ps", "mm_sub_ps": "uf_sub_ps", "mm_mul_ps": "uf_mul_ps", "mm_div_ps": "uf_div_ps", "mm_add_ss": "uf_add_ss"}.get(n, n)
             out.append(("core::arch::x86_64::_%s" % n, "crate::sse::%s" % r))
         out.append(("glam::sse2::m128_floor", "crate::sse::uf_m128_floor"))
         return out
@@ -63,6 +67,11 @@ def stub_set(name, config):
             out.append(("<%s as core::ops::%s<%s>>::%s" % (t, tr, t, fn), "crate::uf::u%s_%s" % (fn, t)))
             out.append(("<%s as core::ops::%sAssign<%s>>::%s_assign" % (t, tr, t, fn), "crate::uf::u%s_assign_%s" % (fn, t)))
         return out
+    m = re.match(r"hv_(\w+?)(32|64)$", name)
+    if m:
+        f, w = m.group(1), m.group(2)
+        mod = "f32" if w == "32" else "f64"
+        return [("glam::%s::math::%s::%s" % (mod, mm, f), "crate::uf::hv_%s_f%s" % (f, w))]
     m = re.match(r"uf_(\w+?)(32|64)$", name)
     if m:
         f, w = m.group(1), m.group(2)
